@@ -5,7 +5,7 @@ GEN: seeded stylesheet ASTs (tools/xslgen.py): template rules with modes/priorit
 RUN: harness/xslt.cpp; the result tree is recorded from the FormatterListener events, before any serializer.
 TV : Trace_C01.tla: tree = XSLTSem!Transform(stylesheet, document)."""
 import os, random, json, subprocess
-import vlib, xdm, xpgen, xslgen
+import vlib, xdm, xpgen, tlaparse, xslgen
 from vlib import ROOT
 from props import c02
 
@@ -48,6 +48,66 @@ def all_xsl(cdir):
     """main.xsl, followed by the imported modules (each introduced by a comment naming its file)"""
     fs = sorted(f for f in os.listdir(cdir) if f.endswith(".xsl") and f != "main.xsl")
     return open(os.path.join(cdir, "main.xsl")).read() + "".join("<!-- ===== %s ===== -->\n%s" % (f, open(os.path.join(cdir, f)).read()) for f in fs)
+
+
+MC_AVT = os.path.join(ROOT, "spec/mc/MC_Avt.tla")
+TRACE_AVT = os.path.join(ROOT, "spec/trace/Trace_C01avt.tla")
+
+
+def avt_family(res, wd, quick):
+    """Attribute value templates, exhaustively at small size: TLC enumerates every string over { } ' " a up to a length (and checks the
+    laws of the definition AvtSyntax.tla on each), every string becomes the value of a literal result attribute of one real stylesheet,
+    and Trace_C01avt compares the attribute written with AvtSyntax!ValueOf.  Templates that are errors by 7.6.2 are not judged here."""
+    maxlen = 5 if quick else 7
+    cfg = os.path.join(wd, "avt.cfg")
+    open(cfg, "w").write("SPECIFICATION Spec\nCONSTANT MaxLen = %d\nINVARIANT PlainIsLiteral\nINVARIANT Doubled\nINVARIANT QuotedRoundTrip\nINVARIANT Shape\nCHECK_DEADLOCK FALSE\n" % maxlen)
+    dump = os.path.join(wd, "avt")
+    r = vlib.tlc(MC_AVT, cfg, workers=1, name="c01avt", timeout=3000, extra=["-noGenerateSpecTE", "-dump", dump])
+    if not r["ok"]:
+        raise vlib.Infra("MC_Avt failed: " + r["out"][-2000:])
+    res.add_mc(r, "MC_Avt (laws of AvtSyntax!Parse on every string of length <= %d over { } ' \" a; the strings are the conformance cases)" % maxlen)
+    strings = sorted(tuple(st["s"]) for st in tlaparse.read_dump(dump + ".dump", only={"s"}))
+    cases = []
+    adir = os.path.join(wd, "avt"); os.makedirs(adir)
+    open(os.path.join(adir, "in.xml"), "w").write("<r><a>A</a><aa>B</aa><aaa>C</aaa></r>")
+    for k, cp in enumerate(strings):
+        text = "".join(chr(c) for c in cp).replace('"', "&quot;")
+        open(os.path.join(adir, "s%d.xsl" % k), "w").write(
+            '<xsl:stylesheet version="1.0" xmlns:xsl="http://www.w3.org/1999/XSL/Transform"><xsl:template match="/"><xsl:for-each select="r"><e v="%s"/></xsl:for-each></xsl:template></xsl:stylesheet>' % text)
+        cases.append({"id": k, "dir": adir, "xsl": "s%d.xsl" % k, "trace": "none", "select": False})
+    exe = vlib.build_harness("xslt")
+    procs = []
+    for sh in range(vlib.NCPU):
+        ch = cases[sh::vlib.NCPU]
+        if ch:
+            cp_ = os.path.join(adir, "cases-%d.ndjson" % sh); vlib.write_ndjson(cp_, ch)
+            rp = os.path.join(adir, "trace-%d.ndjson" % sh)
+            procs.append((ch, rp, subprocess.Popen([exe, cp_], stdout=open(rp, "w"), stderr=subprocess.PIPE)))
+    events = []
+    for ch, rp, p in procs:
+        try:
+            _, err = p.communicate(timeout=1200)
+        except subprocess.TimeoutExpired:
+            p.kill(); _, err = p.communicate()
+        dones = {ev["id"]: ev for ev in vlib.read_ndjson(rp) if ev["e"] == "Done"}
+        for c in ch:
+            dn = dones.get(c["id"])
+            s_ = list(strings[c["id"]])
+            if dn is None:
+                res.violation("transformation process died or hung on the attribute value template %r" % "".join(chr(x) for x in s_), [{"avt": s_}]); break
+            out = []
+            if dn["status"] == 0:
+                es = [x for x in dn["tree"] if x["k"] == "elem" and x["qn"] == "e"]
+                vs = [a[1] for a in es[0]["a"] if a[0] == "v"] if es else []
+                out = xdm.cps(vs[0]) if vs else []
+            events.append({"e": "Avt", "s": s_, "status": dn["status"], "out": out, "msg": dn["msg"][:120]})
+    rejects, st = vlib.tlc_validate_sharded(TRACE_AVT, events, tag="c01avt", stateless=True, timeout=3000)
+    for rj in rejects:
+        ev = events[rj["line"]]
+        res.violation(rj["msg"][:300] + " | " + ev["msg"], [ev])
+    res.notes["avt_strings"] = len(events)
+    res.notes["avt_error_templates_not_judged"] = st["dropped"]
+    return len(events), len(events) - st["dropped"] - len(rejects)
 
 
 def run(res, tier, seed):
@@ -125,9 +185,11 @@ def run(res, tier, seed):
         else:
             res.violation("status %s %s | %s" % (ev["status"], ev["msg"][:100], rj["msg"][:300]),
                           [dict(ev, xsl=all_xsl(cdir), xml=open(os.path.join(cdir, "in.xml")).read(), flatdoc=flats[ev["doc"] - 1], flataux=[flats[a - 1] for a in ev["aux"]])])
+    navt, navt_ok = avt_family(res, wd, quick)
     res.notes["dropped_unjudged"] = st["dropped"]
     rejected = {rj["line"] for rj in rejects}
-    res.cov["traces_validated_against_impl"] = len(events) - len(rejects) - st["dropped"]
+    res.cov["traces_validated_against_impl"] = len(events) - len(rejects) - st["dropped"] + navt_ok
+    res.cov["evaluations"] = len(events) + navt
     nt = set()
     for i, ev in enumerate(events):
         ks = set(); count_kinds(ev["ss"], ks)
